@@ -8,16 +8,19 @@ import specs
 
 PENDING = "check not built yet in this session (see DESIGN.md section 3 for the planned harness); not claimed until it runs clean on the unchanged tree"
 NOT_APPLICABLE = {   # id -> reason, for properties that are deliberately not claimed
-    "C01": "The writer (zck_write/zck_end_chunk/zck_close: comp.c, zstd.c, index_create.c, header.c, buzhash.c) builds its buffers through zrealloc in loops over the "
-           "input; the reader half of the round trip (comp_read) exhausted 16 GB at 1 chunk / 2 reads with every model tried (DESIGN.md section 7), so a round trip "
-           "cannot be encoded within reach of CBMC in this sandbox.  Pieces that are decided elsewhere: header_create seals what the reader hashes (C06 h06w), "
-           "chunks_from_temp under faults (C12 h12t), compint encode/decode round trip (C20), chunk-end decoding step (C15 h15u).  No check is claimed.",
-    "C04": "Composition of scan (C09), copy (C08), range computation (C10) and reassembly (C05) in a fetch loop with a model server; each lemma is decided separately, "
-           "the loop itself (several contexts, three files, multipart responses needing glibc regex semantics) is beyond what CBMC encodes here; zck_dl.c's libcurl loop is FFI.",
+    "C01": "Needs the real writer and the real reader in one run.  With symbolic shapes nothing finishes (as for the reader alone, DESIGN.md section 7); the concrete-shape "
+           "harness harness/C01q.c (zck_init_write..zck_close then zck_init_read..zck_read, checksum comparisons recorded instead of branched on, byte-loop memcpy/realloc/read "
+           "models, --max-field-sensitivity-array-size 256) got the writer half and the header parse concrete but its symbolic execution did not end within 50 min for the "
+           "smallest instance (3 content bytes, one chunk).  Decided pieces: header_create seals what the reader hashes (C06 h06w), chunks_from_temp under faults (C12 h12t), "
+           "compint round trip (C20), the whole read path for concrete shapes (C02).  No check is claimed.",
+    "C04": "Composition of scan (C09), copy (C08), range computation (C10) and reassembly (C05) in a fetch loop with a model server; each lemma is decided separately.  The "
+           "loop's control flow depends on every checksum verdict (which chunks are valid drives which ranges are requested), so it needs concrete shapes, and its multipart "
+           "responses need exactly the instances that do not finish (cut after a payload); zck_dl.c's libcurl loop is FFI.",
     "C11": "Same composition as C04 plus a symbolic crash point and a restart; rests on C09 (validity is recomputed from bytes for ANY on-disk state, incl. the "
            "truncated-file defects fixed here) and C05/C08, which are decided; the crash/restart loop itself is not encoded.",
-    "C16": "Determinism/locality of chunking quantifies over pairs of whole writer runs (two segmentations / two contents) through zck_write with buzhash: twice the "
-           "writer path that is out of reach for C01; buzhash alone is a leaf kernel but the property is about zck_write's use of it.",
+    "C16": "Automatic chunk boundaries are data-dependent control flow (the rolling hash of the content decides where zck_write ends a chunk): with symbolic content every "
+           "byte forks the writer state (the fork/merge explosion measured on the reader), and with concrete content the comparison of two runs is a plain test, not a solver "
+           "verdict.  The writer path is also the part that did not finish for C01.",
     "C19": "The property is about thread interleavings.  CBMC's thread encoding reported SUCCESS on two deliberately racy toy programs and goto-instrument --race-check "
            "aborts on function-local statics (DESIGN.md 2.6 #18), so no interleaving can be decided by the solver here; the remaining reduction (inventory of "
            "static-lifetime objects from the symbol table) is a syntactic analysis, not a solver verdict, and is therefore not offered as a check of this family.",
